@@ -22,3 +22,4 @@ open Neutrino.GetCFilter
 #print axioms Neutrino.GetCFilter.C05_trans_range
 #print axioms Neutrino.GetCFilter.C05_trans_no_query_above_tip
 #print axioms Neutrino.GetCFilter.C05_trans_lookup_error
+#print axioms Neutrino.GetCFilter.C05_trans_headerIndex
